@@ -564,5 +564,5 @@ class C11Machine(RecordingMixin, RuleBasedStateMachine):
 
 def subs(tier):
     q = tier == "quick"
-    return [Sub("histories", None, machine=MachineSpec(C11Machine), examples=90 if q else 800,
+    return [Sub("histories", None, machine=MachineSpec(C11Machine), examples=90 if q else 2500,
                 steps=25 if q else 45)]
